@@ -51,6 +51,7 @@ TOnExit == /\ Live /\ Ln.e = "onexit" /\ Ln.a \in Actors(P)
                            ELSE st IN
               /\ base.ph[Ln.a] = "exiting" /\ base.oex[Ln.a] # <<>> /\ Head(base.oex[Ln.a]) = Ln.id
               /\ (base.pres[Ln.a] = "done" => ~Ln.failed)
+              /\ (base.hoff[Ln.a] => Ln.failed)                 \* C10: the host failed under the actor
               /\ st' = RunOnExit(P, base, Ln.a)
               /\ pend' = (pend \ (IF st.ph[Ln.a] = "exiting" THEN {} ELSE {Ln.a})) \cup NewlyAnswered(st, st')
            /\ Consume /\ UNCHANGED <<pid, fin>>
@@ -153,6 +154,8 @@ I_CvConsistency == fin \/ CvConsistency(P, st)
 I_BarrierGroups == fin \/ BarrierGroups(P, st)
 I_PhaseConsistency == fin \/ PhaseConsistency(P, st)
 I_CommExactlyOnce == fin \/ CommExactlyOnce(P, st)
+I_Lifecycle == fin \/ Lifecycle(P, st)
+I_FailureReported == fin \/ FailureReported(P, st)
 Inv == fin \/ KernelInv(P, st)
 
 \* register 1 = highest line consumed so far (needs -workers 1); read by the harness when a trace is rejected
